@@ -102,6 +102,8 @@ func suiteNode(c *Ctx) {
 	c.Class("scenario/commit-replays")
 	scenarioVoteSignatureReplay(c)
 	c.Class("scenario/vote-signature-replay")
+	scenarioForeignInstanceFuture(c)
+	c.Class("scenario/foreign-instance-future")
 	// adversarial scenarios: Byzantine members of total weight <= f, all strategies
 	nadv := 60
 	if c.Thorough() {
